@@ -246,7 +246,7 @@ Print Assumptions C03_qr_no_kernel_refuted.
 Theorem C03_dtype_pairings_on_platform :
   forall m pdt fdt nz,
   refresh_succeeds (refresh_tags lapack_kernel lapack_kernel true m pdt fdt nz)
-  = negb (match m, fdt, nz with MQR, BF16, true => true | _, _, _ => false end).
+  = negb (match m, fdt, nz with MQR, BF16, true | MQR, F16, true => true | _, _, _ => false end).
 Proof. exact dtype_pairings_on_platform. Qed.
 Print Assumptions C03_dtype_pairings_on_platform.
 
